@@ -56,7 +56,15 @@ def permute(model, rng, what):
 
 def observe(c, with_c, with_jax):
     o = {"layout": c.impl_layout()}
-    o["py"] = impl.gen_python(c.ode, schemes=impl.ALL_SCHEMES, stiff_states=o["layout"]["sorted_states"][:1])
+    try:
+        o["py"] = impl.gen_python(c.ode, schemes=impl.ALL_SCHEMES, stiff_states=o["layout"]["sorted_states"][:1])
+    except Exception as ex:  # noqa: BLE001
+        nm = type(ex).__name__
+        if not (nm == "PrintMethodNotImplementedError" or (nm == "ValueError" and "_print_Derivative" in str(ex))):
+            raise
+        # the Rush-Larsen schemes cannot be generated for this model (derivative of floor / Mod: the open C06 finding,
+        # reported there); the permutation property is then observed on the functions that can be generated
+        o["py"] = "rush-larsen unprintable; " + impl.gen_python(c.ode, schemes=["explicit_euler"])
     o["py_ru"] = impl.gen_python(c.ode, schemes=["explicit_euler"], remove_unused=True)
     if with_c:
         try:
@@ -119,6 +127,11 @@ def main(argv=None):
     rng = random.Random(a.seed)
     gen = lang.Gen(rng, max_depth=2, p_cond=0.1)
     n = a.n or (30 if a.tier == "quick" else 600)
+    if a.replay:
+        import json as _json
+        family.replay_text_case(rep, drv, _json.load(open(a.replay)), check_model, True, True)
+        drv.close()
+        return rep.finish(level="proof", rule="replay of " + a.replay, trusted_base=["see the full check"])
     # directed: the known absorption of a header-less block by a preceding headed block
     t1 = 'states("A", x=1)\nstates(y=2)\nexpressions("A")\ndx_dt = -x\ndy_dt = x - y\n'
     t2 = 'states("A", x=1)\nstates(y=2)\ndy_dt = x - y\nexpressions("A")\ndx_dt = -x\n'
